@@ -537,6 +537,27 @@ func (e *Engine) solve(fc *FnCtx) {
 			}
 		}
 	}
+	// thorough tier: a second back end re-checks the whole script; a `sat` from it vetoes an `unsat`
+	if e.thorough {
+		out2, _ := e.runSolver(solvers[2], script, tag+"_x", wall)
+		rs2 := parseResults(out2, len(order))
+		for i, o := range order {
+			r2 := rs2[i]
+			if o.Cover {
+				if r2 == "sat" {
+					r2 = "unsat"
+				} else if r2 == "unsat" {
+					r2 = "sat"
+				}
+			}
+			if o.Status == "unsat" && r2 == "sat" {
+				o.Status = "unknown"
+				o.Output = "solver disagreement: " + solvers[0].name + " unsat, " + solvers[2].name + " sat"
+			} else if o.Status == "unsat" && r2 == "unsat" {
+				o.Backend += "+" + solvers[2].name
+			}
+		}
+	}
 	// second opinions for anything not proved, one obligation at a time
 	for _, o := range order {
 		if o.Status == "unsat" {
